@@ -13,5 +13,5 @@ NoSelfGraphs == {x \in [Node -> SUBSET Node] : \A n \in Node : n \notin x[n]}
 Graphs3 == {g \in [Node -> Disj] : \A n \in Node : n \notin g[n][1]}
 OneWrap == {[n \in Node |-> IF n = m THEN w ELSE "none"] : m \in Node, w \in WModes}
 Fam == {[single |-> [n \in Node |-> g[n][1]], selfOpt |-> AllFalse, slice |-> [n \in Node |-> g[n][2]],
-         sliceOpt |-> AllFalse, lazy |-> {}, wrap |-> w, fail |-> NoFail, procs |-> <<>>, mode |-> [n \in Node |-> "normal"], rorder |-> <<>>] : g \in Graphs3, w \in OneWrap}
+         sliceOpt |-> AllFalse, lazy |-> {}, wrap |-> w, fail |-> NoFail, procs |-> <<>>, mode |-> [n \in Node |-> "normal"], rorder |-> <<>>, ilook |-> NoLook] : g \in Graphs3, w \in OneWrap}
 =============================================================================
